@@ -3,6 +3,7 @@
 package httpgrpc
 
 import (
+	"net/http"
 	"context"
 	"crypto/tls"
 	"errors"
@@ -89,6 +90,13 @@ func Verif_C13_HTTP() {
 	}
 	ut := &verifTransport{handler: srv, remoteAddr: "9.9.9.9:99", tls: cs, inline: true}
 	st := &verifStreamTransport{handler: srv, remoteAddr: "9.9.9.9:99", tls: cs}
+	// a response that arrived, but with a -bin header that is not base64 (added by
+	// an intermediary): the call fails, the peer it came from is known all the same
+	badResp := focus == 0 && !hasCreds && callerKind == 0 && zv.Bool("response-carries-an-undecodable-bin-header")
+	if badResp {
+		ut.respExtra = http.Header{"X-Trace-Bin": {"!! not base64 !!"}}
+		st.respExtra = ut.respExtra
+	}
 	ch := &Channel{Transport: &verifRouter{unary: ut, stream: st}, BaseURL: verifURL(scheme, host, "/")}
 
 	ctx := context.Background()
@@ -146,6 +154,12 @@ func Verif_C13_HTTP() {
 		zv.Reach("credential-error")
 		zv.Assert(err == creds.err, "credential-error-returned")
 		zv.Assert(requests == 0, "no-request-issued-after-credential-error")
+		return
+	}
+	if badResp {
+		zv.Reach("undecodable-response-header")
+		zv.Assert(pr.Addr != nil, "peer-option-reports-remote-address-of-a-failed-exchange")
+		zv.Assert((pr.AuthInfo != nil) == useTLS, "peer-option-authinfo-iff-tls-of-a-failed-exchange")
 		return
 	}
 	zv.Reach("call-made")
